@@ -12,11 +12,13 @@ PepVal(s) == P!Greedy(s)
 SvOk(s) == IsSemVer(s) /\ CoreFits(s)
 PepOk(s) == P!GreedyAccepts(s) /\ P!AllFitU32(P!Greedy(s))
 
-CmpRow(e, ok(_), cmp(_, _)) ==
-  IF ok(e.a) /\ ok(e.b)
-  THEN /\ ~e.panic
-       /\ e.cmp = cmp(e.a, e.b) /\ e.rcmp = -e.cmp /\ (e.eq <=> e.cmp = 0)
-  ELSE TRUE                      \* acceptance of the strings is C08 / C09's business
+\* Representable strings must be compared; strings of the language whose numbers are beyond the
+\* representable range may be rejected (C08 / C09 decide that) - but when zerv accepts them and answers,
+\* the answer must still be the order of the specification (numerals of any size compare by value).
+CmpRow(e, ok(_), lang(_), cmp(_, _)) ==
+  /\ (ok(e.a) /\ ok(e.b)) => ~e.panic
+  /\ (lang(e.a) /\ lang(e.b) /\ ~e.panic) =>
+        (e.cmp = cmp(e.a, e.b) /\ e.rcmp = -e.cmp /\ (e.eq <=> e.cmp = 0))
 SvC(a, b) == SvCmp(SvVal(a), SvVal(b))
 PepC(a, b) == P!PepCmp(PepVal(a), PepVal(b))
 
@@ -36,10 +38,12 @@ MaxRow(e, ok(_), cmp(_, _)) ==
 AllOk(list, ok(_)) == \A k \in 1..Len(list) : ok(list[k])
 Strict(s, ok(_), lang(_)) == lang(s) => ok(s)      \* in the language => representable
 EventOk(e) ==
-  CASE e.k = "svcmp"   -> CmpRow(e, SvOk, SvC)
-    [] e.k = "pepcmp"  -> CmpRow(e, PepOk, PepC)
-    [] e.k = "svsort"  -> AllOk(e.sorted, SvOk) => Sorted(e, SvC)
-    [] e.k = "pepsort" -> AllOk(e.sorted, PepOk) => Sorted(e, PepC)
+  CASE e.k = "svcmp"   -> CmpRow(e, SvOk, IsSemVer, SvC)
+    [] e.k = "pepcmp"  -> CmpRow(e, PepOk, P!GreedyAccepts, PepC)
+    [] e.k = "svsort"  -> /\ AllOk(e.sorted, SvOk) => ~e.panic
+                          /\ (AllOk(e.sorted, IsSemVer) /\ ~e.panic) => Sorted(e, SvC)
+    [] e.k = "pepsort" -> /\ AllOk(e.sorted, PepOk) => ~e.panic
+                          /\ (AllOk(e.sorted, P!GreedyAccepts) /\ ~e.panic) => Sorted(e, PepC)
     [] e.k = "svmax"   -> (\A k \in 1..Len(e.tags) : Strict(e.tags[k], SvOk, IsSemVer)) => MaxRow(e, SvOk, SvC)
     [] e.k = "pepmax"  -> (\A k \in 1..Len(e.tags) : Strict(e.tags[k], PepOk, P!GreedyAccepts)) => MaxRow(e, PepOk, PepC)
     [] OTHER -> FALSE
